@@ -2,7 +2,6 @@
 Typing of structural conversion plans and of runtime values (used by the composite theorem of C02).
 -/
 import Gv.Model.Eval
-import Gv.Spec.Structural
 
 namespace Gv.Typing
 open Gv Gv.Str Gv.Eval
@@ -10,9 +9,11 @@ open Gv Gv.Str Gv.Eval
 /-- the signature (source, target) of the generated/declared methods of a program -/
 def sigOf (p : Program) (m : Nat) : Option (Ty × Ty) := (p.methods[m]?).map (fun gm => (gm.source, gm.target))
 
+def fieldNames (fs : List (FieldInfo × Ty)) : List S := fs.map (fun (x : FieldInfo × Ty) => x.1.name)
+
 mutual
   /-- `HasTy p c s t`: plan `c` is a structural conversion from type `s` to type `t` (no custom function, no enum,
-      no constructor, no update, every list has its `make`) -/
+      no constructor, no update, no `*T → U`, every list has its `make`, every target field has a same-named source) -/
   inductive HasTy (p : Program) : Conv → Ty → Ty → Prop
     | identBasic {s t k} : under p.conv.env s = .basic k → under p.conv.env t = .basic k → HasTy p .ident s t
     | castBasic {s t k} : under p.conv.env s = .basic k → under p.conv.env t = .basic k → HasTy p (.cast .ident) s t
@@ -21,28 +22,27 @@ mutual
         HasTy p (.ptrPtr te inner) s t
     | tgtPtr {s t te inner} : (∀ e, under p.conv.env s ≠ .ptr e) → under p.conv.env t = .ptr te → HasTy p inner s te →
         HasTy p (.tgtPtr te inner) s t
-    | srcPtr {s t se inner} : under p.conv.env s = .ptr se → (∀ e, under p.conv.env t ≠ .ptr e) → HasTy p inner se t →
-        HasTy p (.srcPtr t inner) s t
     | slice {s t se te elem} : under p.conv.env s = .slice se → under p.conv.env t = .slice te → HasTy p elem se te →
         HasTy p (.list te true true elem) s t
     | array {s t n se te elem} : under p.conv.env s = .array n se → under p.conv.env t = .slice te → HasTy p elem se te →
         HasTy p (.list te true false elem) s t
     | mapc {s t sk sv tk tv key val} : under p.conv.env s = .map sk sv → under p.conv.env t = .map tk tv →
         HasTy p key sk tk → HasTy p val sv tv → HasTy p (.mapc tk tv key val) s t
-    | structc {s t sfs tfs plans} : under p.conv.env s = .struct sfs → under p.conv.env t = .struct tfs →
-        HasFields p plans sfs.toList tfs.toList → HasTy p (.structc plans false) s t
+    | structc {s t sfs tfs plans upd} : under p.conv.env s = .struct sfs → under p.conv.env t = .struct tfs →
+        (fieldNames tfs.toList).Nodup →
+        HasFields p plans sfs.toList tfs.toList → HasTy p (.structc plans upd) s t
   /-- one plan per target field, in declaration order, each fed by the same-named source field -/
   inductive HasFields (p : Program) : FieldPlans → List (FieldInfo × Ty) → List (FieldInfo × Ty) → Prop
     | nil {sfs} : HasFields p .nil sfs []
-    | cons {sfs tf tty sf sty cv rest tfs} :
+    | cons {sfs tf tty sf sty cv rest tfs b} :
         sfs.find? (fun (x : FieldInfo × Ty) => x.1.name == tf.name) = some (sf, sty) →
         HasTy p cv sty tty → HasFields p rest sfs tfs →
-        HasFields p (.cons (.mapped tf.name [tf.name] [false] false false cv .none) rest) sfs ((tf, tty) :: tfs)
+        HasFields p (.cons (.mapped tf.name [tf.name] [false] false b cv .none) rest) sfs ((tf, tty) :: tfs)
 end
 
-/-- every method of the program is a structural conversion of its own signature, without context parameters -/
-structure ProgOK (p : Program) : Prop where
-  bodies : ∀ m gm, p.methods[m]? = some gm → ∃ c, gm.body = some (.convert c) ∧ HasTy p c gm.source gm.target
+/-- every method of the program is a structural conversion of its own signature -/
+def ProgOK (p : Program) : Prop :=
+  ∀ (m : Nat) (gm : GenMethod), p.methods[m]? = some gm → ∃ c, gm.body = some (Body.convert c) ∧ HasTy p c gm.source gm.target
 
 /-- `WT env v t`: value `v` is a value of type `t` -/
 inductive WT (env : TEnv) : Val → Ty → Prop
@@ -51,12 +51,13 @@ inductive WT (env : TEnv) : Val → Ty → Prop
   | nilSlice {t e} : under env t = .slice e → WT env .nil t
   | nilMap {t k v} : under env t = .map k v → WT env .nil t
   | ptr {l x t e} : under env t = .ptr e → WT env x e → WT env (.ptr l x) t
-  | slice {l vs t e} : under env t = .slice e → (∀ v ∈ vs, WT env v e) → WT env (.slice l vs) t
-  | arr {vs t n e} : under env t = .array n e → (∀ v ∈ vs, WT env v e) → WT env (.arr vs) t
-  | map {l kvs t k v} : under env t = .map k v → (∀ kv ∈ kvs, WT env kv.1 k ∧ WT env kv.2 v) → WT env (.map l kvs) t
+  | slice {l vs t e} : under env t = .slice e → (∀ v, v ∈ vs → WT env v e) → WT env (.slice l vs) t
+  | arr {vs t n e} : under env t = .array n e → (∀ v, v ∈ vs → WT env v e) → WT env (.arr vs) t
+  | map {l kvs t k v} : under env t = .map k v → (∀ a b, (a, b) ∈ kvs → WT env a k) → (∀ a b, (a, b) ∈ kvs → WT env b v) →
+      WT env (.map l kvs) t
   | struct {fs t tfs} : under env t = .struct tfs →
-      (fs.map (·.1)).Nodup →
-      (∀ name x, (name, x) ∈ fs → ∃ f ty, tfs.toList.find? (fun (y : FieldInfo × Ty) => y.1.name == name) = some (f, ty) ∧ WT env x ty) →
+      (∀ name x f ty, fs.lookup name = some x →
+        tfs.toList.find? (fun (y : FieldInfo × Ty) => y.1.name == name) = some (f, ty) → WT env x ty) →
       WT env (.struct fs) t
 
 end Gv.Typing
